@@ -320,6 +320,69 @@ func TestVerifC03(t *testing.T) {
 		os.RemoveAll(dir)
 	}
 
+	// ---- (e) many series: a part whose block metadata fills more than one primary block (128 KiB of metadata,
+	//      about 1900 blocks). Timestamps grow with the series id, so the first and the last primary block span
+	//      different times; windows over the early, middle and late range before and after flush and merge.
+	for c := 0; c < verifh.Pick(2, 12); c++ {
+		r := verifh.Rand("c03wide", c)
+		dir := freshDir(base)
+		st := openStepTable(dir, fileSystem)
+		nSeries := 4200 + r.Intn(1500)
+		sids := make([]common.SeriesID, nSeries)
+		for i := range sids {
+			sids[i] = common.SeriesID(i + 1)
+		}
+		var all []vrow
+		bad := ""
+		windows := func(step string) {
+			for _, w := range [][2]int64{{1, 100}, {int64(nSeries / 2), int64(nSeries/2 + 100)}, {int64(nSeries - 50), int64(3 * nSeries)}, {int64(1 + r.Intn(nSeries)), int64(nSeries + r.Intn(nSeries))}} {
+				if bad != "" {
+					return
+				}
+				o := scanOpts{orderBy: "ts-asc", sids: sids, minTS: w[0], maxTS: w[1]}
+				rows, err := st.scan(o)
+				if err != nil {
+					bad = step + ": window scan failed: " + err.Error()
+				} else if d := compare(rows, all, o); d != "" {
+					bad = fmt.Sprintf("%s: [window %d..%d] %s", step, w[0], w[1], d)
+				}
+			}
+		}
+		for p := 0; p < 2+r.Intn(2) && bad == ""; p++ {
+			var rows []vrow
+			for i, sid := range sids {
+				uid++
+				rows = append(rows, vrow{sid: sid, ts: int64(i+1) + int64(p)*int64(nSeries), version: 1, uid: uid, s: "v", iv: uid, fv: 1})
+			}
+			st.write(rows)
+			all = append(all, rows...)
+			windows("memory part")
+			st.flush()
+			windows("after flush")
+		}
+		if bad == "" {
+			ids, file := st.partIDs()
+			var fids []uint64
+			for _, id := range ids {
+				if file[id] {
+					fids = append(fids, id)
+				}
+			}
+			if _, err := st.merge(fids); err != nil {
+				bad = "merge failed: " + err.Error()
+			} else {
+				windows("after merge")
+			}
+		}
+		s.Case(fmt.Sprintf("wide/%d/%d", c, nSeries), true)
+		s.Count("c03.measure.many_series_cases", 1)
+		if bad != "" {
+			s.Violation("c03:measure:many-series-part", map[string]any{"case": c, "series": nSeries, "discrepancy": bad})
+		}
+		st.close()
+		os.RemoveAll(dir)
+	}
+
 	liveMeasure(s, base, fileSystem, &uid)
 	os.RemoveAll(base)
 	s.Done()
